@@ -360,7 +360,8 @@ CHECKS["C20"] = dict(
           "(open/pause/resume/close/cleanup/options), then Shutdown. C20Monitor: bursts of events from 4-11 goroutines on the real monitor with millisecond timers, then shutdown. "
           "C20E2E (bubble): two full nodes, 4-10 simultaneous transfers, 4 disturbing goroutines (pause/resume/close/restart/disconnect), Stop mid-flight or after completion. "
           "C20Hazard: the hang triggers found earlier, placed deterministically (graphsync request carrying a cancel, handler refusing inside the outgoing hook, cleanup during open, "
-          "incoming-request hook overlapping the channel's ending, pause/resume while a message for the same channel is queued in graphsync's request / response manager loop), one per "
+          "incoming-request hook overlapping the channel's ending, pause/resume while a message for the same channel is queued in graphsync's request / response manager loop, Stop against limit-crossing reports, Stop while a per-transfer subscriber handles the terminal event, "
+          "simultaneous block reports for one channel and simultaneous FIRST reports for a channel id not yet handled in this lifetime), one per "
           "case. The graphsync double models go-graphsync's two single-threaded manager loops (hooks run inside them, Request/Cancel/Pause/Unpause/SendUpdate wait for them). "
           "distinct = each case is a distinct seeded schedule."),
     parts=[
@@ -371,7 +372,7 @@ CHECKS["C20"] = dict(
         dict(test="TestC20Hazard", quick=18, thorough=144, per_shard=9),
     ],
     floors=dict(any={"TestC20Manager.operations": 8000, "TestC20Manager.reentrant_calls": 300, "TestC20Transport.operations": 8000, "TestC20Monitor.events": 5000,
-                     "TestC20E2E.transfers": 30, "TestC20Hazard.hazard.hook-overlapping-ending": 2, "TestC20Hazard.hazard.pause-reached-graphsync-with-message-queued": 4, "TestC20Hazard.hazard.stop-vs-limit-reports": 100, "TestC20Hazard.hazard.stop-vs-terminal-subscriber": 2, "TestC20Hazard.hazard.simultaneous-reports-same-channel": 2000}),
+                     "TestC20E2E.transfers": 30, "TestC20Hazard.hazard.hook-overlapping-ending": 2, "TestC20Hazard.hazard.pause-reached-graphsync-with-message-queued": 4, "TestC20Hazard.hazard.stop-vs-limit-reports": 100, "TestC20Hazard.hazard.stop-vs-terminal-subscriber": 2, "TestC20Hazard.hazard.simultaneous-reports-same-channel": 2000, "TestC20Hazard.hazard.simultaneous-first-reports-new-channel": 2000}),
     assumptions=["Transport.ChannelsForPeer (diagnostic accessor, unsynchronised read of the current request id) is outside the surface the property lists and is not driven",
                  "a hang verdict needs a stable, fully parked goroutine picture; a busy process is inconclusive"],
 )
